@@ -398,7 +398,7 @@ fn gen_robust(thorough: bool, rng: &mut Rng, out: &mut dyn FnMut(String), enum_k
     for (si, s) in big_shapes().iter().enumerate() {
         let n: usize = s.iter().product();
         let rank = s.len() as isize;
-        let ty = TYS[si % 5];
+        let ty = TYS[(si + 1) % 5];
         let dup: Vec<i64> = (0..n).map(|_| rng.range(0, 2)).collect();
         let scr: Vec<i64> = { let q = rng.perm(n); q.iter().map(|&j| (j % 101) as i64).collect() };
         let (a_dup, a_scr) = (lane_ty(ty, s, &dup, 1), lane_ty(ty, s, &scr, 1));
@@ -417,14 +417,16 @@ fn gen_robust(thorough: bool, rng: &mut Rng, out: &mut dyn FnMut(String), enum_k
             }
             continue;
         }
+        // quick tier: shapes of rank >= 3 take each axis in one spelling (alternating), shapes above 1000 elements two kinds per axis
+        let mid = n > 1000 && !thorough;
         let mut axes: Vec<String> = vec!["none".into()];
-        for k in 0..rank { axes.push(k.to_string()); axes.push((k - rank).to_string()); }
+        for k in 0..rank { if rank <= 2 || thorough { axes.push(k.to_string()); axes.push((k - rank).to_string()); } else { axes.push(if (k as usize + si) % 2 == 0 { k.to_string() } else { (k - rank).to_string() }); } }
         for (ai, ax) in axes.iter().enumerate() {
-            let ks: Vec<String> = if heavy { vec![enum_kinds[(si + ai) % 4].clone(), enum_kinds[(si + ai + 2) % 4].clone()] } else { enum_kinds.to_vec() };
+            let ks: Vec<String> = if heavy || mid { vec![enum_kinds[(si + ai) % 4].clone(), enum_kinds[(si + ai + 2) % 4].clone()] } else { enum_kinds.to_vec() };
             for k in &ks { out(format!("tsort {ty}:b {a_dup} {ax} {k}")); }
-            out(format!("tsort {ty}:b {a_scr} {ax} {}", enum_kinds[(si + ai + 1) % 4]));
+            if !mid || ai % 2 == 0 { out(format!("tsort {ty}:b {a_scr} {ax} {}", enum_kinds[(si + ai + 1) % 4])); }
             out(format!("targsort {ty}:b {a_dup} {ax} {}", enum_kinds[(si + ai) % 4]));
-            if !heavy { out(format!("targsort {ty}:b {a_scr} {ax} {}", enum_kinds[(si + ai + 3) % 4])); }
+            if !heavy && !mid { out(format!("targsort {ty}:b {a_scr} {ax} {}", enum_kinds[(si + ai + 3) % 4])); }
             let kd = ["none", "true", "false"][(si + ai) % 3];
             out(format!("targmax {ty}:b {a_dup} {ax} {kd}")); out(format!("targmin {ty}:b {a_dup} {ax} {kd}"));
             out(format!("targmax {ty}:b {a_scr} {ax} true")); out(format!("targmin {ty}:b {a_scr} {ax} none"));
